@@ -93,6 +93,14 @@ Theorem c15_own_dimensions_first : forall e, panicked (calls e) = false ->
 Proof. exact calls_dims_first. Qed.
 Print Assumptions c15_own_dimensions_first.
 
+(* Two laws that follow: nested WithDimensions add the inner dimensions first; WithDimensions and ForceFlag commute. *)
+Theorem c15_dims_nest : forall e d1 d2, calls (WithDimsE (WithDimsE e d1) d2) = calls (WithDimsE e (d1 ++ d2)).
+Proof. exact calls_dims_nest. Qed.
+Print Assumptions c15_dims_nest.
+Theorem c15_dims_force_commute : forall e d f, calls (WithDimsE (ForceE e f) d) = calls (ForceE (WithDimsE e d) f).
+Proof. exact calls_dims_force_comm. Qed.
+Print Assumptions c15_dims_force_commute.
+
 (* Sample groups: the wrapped entries' groups in order, for every nesting (true after the repair). *)
 Theorem c15_sample_group : forall e, sgroup e = spec_group e.
 Proof. exact sgroup_spec. Qed.
